@@ -39,6 +39,7 @@ func TestCheck(t *testing.T) {
 		emptyDetailOutsideQuantifier(r)
 		countDeterministicPhase(r)
 		carryoverPhase(r)
+		schemaChurnPhase(r)
 		// (D) runs next to (C): both are mostly waiting
 		hbDone := make(chan struct{})
 		go func() { defer close(hbDone); heartbeatPhase(r) }()
